@@ -339,16 +339,32 @@ EagerSync(hs, pre, e) == IsSync(hs) /\ e.ev = "Sync" /\ hs.pend.on /\ hs.pend.no
 \* The concurrent cache used eagerly (sync() after every call): an insert of a new key issued at
 \* a quiescent point and the sync() that follows it are judged as one step, with respect to the
 \* order in which maintenance applied the calls (= the call order, in eager use).
-PairReady(hs, e) ==
-    /\ IsSync(hs) /\ e.ev = "Sync" /\ hs.eager /\ hs.pend.on /\ hs.pend.fresh /\ hs.pend.now = e.now
+PairReadyAny(hs, e) ==
+    /\ IsSync(hs) /\ e.ev = "Sync" /\ hs.eager /\ hs.pend.on /\ hs.pend.now = e.now
     /\ Quiescent(e.snap) /\ ExcessOf(hs, hs.pend.pre) = 0
+PairReady(hs, e) == PairReadyAny(hs, e) /\ hs.pend.fresh
+\* an in-place update issued at a quiescent point, and the sync() that applies it
+PairUpdate(hs, e) == PairReadyAny(hs, e) /\ ~hs.pend.fresh /\ hs.pend.k \in KeysIn(hs.pend.pre.res)
 \* the history as it was before the insert, with every successful get honoured (eager use)
 PairHist(hs) == [hs EXCEPT !.rec = hs.pend.rec,
                            !.last = [k \in HKeys(hs) |-> [hs.last[k] EXCEPT !.accLo = hs.last[k].acc]]]
 PairEvent(hs, e) == [ev |-> "Insert", k |-> hs.pend.k, v |-> hs.pend.v, w |-> hs.pend.w, now |-> e.now,
                      snap |-> e.snap]
 
+\* after an entry grew: the shortest prefix of the recency order (the updated key now most
+\* recent, dead entries purged first) that frees the excess over max_capacity
+ExpectedAfterGrowth(h, pre, pe) ==
+    LET q0 == LiveOrder(h, pre, pe.now)
+        q == Append(Without(q0, pe.k), pe.k)
+        W == [x \in HKeys(h) |-> IF x = pe.k THEN pe.w ELSE WFun(h, pre)[x]]
+        need == IF h.cfg.cap = None THEN 0 ELSE SatSub(SeqSum([i \in DOMAIN q |-> W[q[i]]]), h.cfg.cap)
+        n == Min(ShortestPrefix(q, W, need, 0, 0), Len(q))
+    IN Range(Prefix(q, n))
+
 Allowed_C12(hs, pre, e) ==
+    /\ PairUpdate(hs, e) =>
+          LET h == PairHist(hs)  pe == PairEvent(hs, e)
+          IN LostLive(h, hs.pend.pre, pe) \ {pe.k} = ExpectedAfterGrowth(h, hs.pend.pre, pe) \ {pe.k}
     /\ PairReady(hs, e) =>
           LET h == PairHist(hs)  pe == PairEvent(hs, e)
           IN LostLive(h, hs.pend.pre, pe) \ {pe.k} = ExpectedEvictedX(h, hs.pend.pre, pe, TRUE) \ {pe.k}
